@@ -157,7 +157,9 @@ class _PokTranslator(_util.OverrideableDataDesc):
         sig = self.__signature__
         return self.func, ast, sig
 
-    def __call__(self, *args, **kwargs):
+    def __call__(_sigtools__self, *args, **kwargs):
+        # (any name may be a keyword of the call, 'self' included)
+        self = _sigtools__self
         intersect = self.posoarg_names.intersection(kwargs)
         if intersect:
             raise TypeError(
@@ -369,7 +371,10 @@ class annotate(object):
         on the function
     """
 
-    def __init__(self, __return_annotation=_util.UNSET, **annotations):
+    def __init__(_sigtools__self, __return_annotation=_util.UNSET,
+                 **annotations):
+        # (any name may be annotated, 'self' included)
+        self = _sigtools__self
         self.ret = __return_annotation
         self.annotations = annotations
         self.to_use = set(annotations)
